@@ -110,6 +110,9 @@ func (c *Conn) endSilence() {
 // leave a connection whose CONNECT is never answered; the silent period then
 // starts after the CONNECT/CONNACK exchange.
 func (c *Conn) exemptFromSilence(p *Pkt) bool {
+	if p != nil && c.s.sc.Cfg.DeafToPings && p.Type != TPingReq && p.Type != TPingResp {
+		return true
+	}
 	if p == nil || c.s.sc.Cfg.TimeoutUs != 0 {
 		return false
 	}
@@ -553,7 +556,7 @@ func (c *Conn) afterRx(m int, eofAfter bool) {
 // releaseFrags delivers a whole packet fragment by fragment (engine R only).
 func (c *Conn) releaseFrags(m int, p *Pkt, raw []byte, class string, frag []int, eofAfter bool) {
 	s := c.s
-	if c.isSilent() {
+	if c.isSilent() && !c.exemptFromSilence(p) {
 		s.log(Rec{Kind: "dropb2c", Conn: c.k, N: m, P: p, S: "silent"})
 		return
 	}
